@@ -1,1 +1,12 @@
-fn main() {}
+//! Shim `main` for end-to-end legs: the real CLI (`watchexec_cli::run()`), minus pid1/allocator set-up.
+use std::process::ExitCode;
+
+fn main() -> ExitCode {
+	match tokio::runtime::Builder::new_multi_thread().enable_all().build().unwrap().block_on(async { watchexec_cli::run().await }) {
+		Ok(code) => code,
+		Err(e) => {
+			eprintln!("{e:?}");
+			ExitCode::FAILURE
+		}
+	}
+}
